@@ -37,7 +37,9 @@ def c13_cases(tier, seed):
             cases.append(steps)
     # long parameter lists: totals above 64 / 128 elements, not multiples of the usual block sizes
     for shp in ([[70]], [[100]], [[64]], [[128]], [[8, 8], [8]], [[5, 13], [3], [2, 2]], [[33], [31], [1]], [[9, 9], [9, 9]],
-                [[16, 4], [4], [4, 2], [2]], [[130]], [[3, 7, 5]]):
+                [[16, 4], [4], [4, 2], [2]], [[130]], [[3, 7, 5]],
+                # totals of 512 elements and more that are not multiples of the usual block sizes (a blocked step with a tail)
+                [[513]], [[260, 2], [3]], [[100, 5], [13]], [[32, 16], [16], [16, 1], [1]], [[1030]], [[511], [2]], [[17, 31]]):
         for has in ([True] * len(shp), [k % 2 == 0 for k in range(len(shp))]):
             steps = [RESET]
             for k, d in enumerate(shp):
